@@ -178,9 +178,12 @@ Drop ==
   /\ managed' = {} /\ roots' = {}
   /\ UNCHANGED <<kind, pts, handed>> /\ Count /\ last' = <<"drop">>
 
-(* the caller releases one object that was handed to it *)
+(* the caller releases one object that was handed to it -- one the machine no longer refers to:  *)
+(* releasing a result that a variable of a retained machine still holds is a use-after-free of    *)
+(* the caller's own making (the machine, and its collector when it walks the roots, will read it) *)
+(* and is outside what C03 / C04 promise                                                          *)
 CallerFree(o) ==
-  /\ o \in handed /\ o \in live
+  /\ o \in handed /\ o \in live /\ o \notin Reach(roots)
   /\ Release({o})
   /\ handed' = handed \ {o}
   /\ UNCHANGED <<kind, managed, pts, roots, objs>> /\ Count /\ last' = <<"callerfree", o>>
